@@ -488,6 +488,38 @@ func (f *Frame) overflow(x ssa.Value, term, reach string) {
 	if g.contract == nil || !g.contract.Overflow {
 		return
 	}
+	if only := g.contract.OverflowOnly; len(only) > 0 {
+		// restricted to the results assigned to the named locals or struct fields
+		hit := false
+		if refs := x.Referrers(); refs != nil {
+			for _, r := range *refs {
+				name := ""
+				switch u := r.(type) {
+				case *ssa.Store:
+					if fa, ok := u.Addr.(*ssa.FieldAddr); ok && u.Val == x {
+						if st, ok := fa.X.Type().Underlying().(*types.Pointer).Elem().Underlying().(*types.Struct); ok {
+							name = st.Field(fa.Field).Name()
+						}
+					}
+					if al, ok := u.Addr.(*ssa.Alloc); ok && u.Val == x {
+						name = al.Comment
+					}
+				case *ssa.DebugRef:
+					if id, ok := u.Expr.(*ast.Ident); ok && !u.IsAddr {
+						name = id.Name
+					}
+				}
+				for _, o := range only {
+					if name == o {
+						hit = true
+					}
+				}
+			}
+		}
+		if !hit {
+			return
+		}
+	}
 	bt, ok := x.Type().Underlying().(*types.Basic)
 	if !ok {
 		return
